@@ -1,4 +1,5 @@
 import NomtModel.Store.LeafUpdRun
+import NomtModel.Store.LeafUpdChain
 /-!
 # The leaf stage as a whole: `reset_leaf_base`, the scope loop, the change loop, the final merge loop
 -/
@@ -10,6 +11,7 @@ structure RS (KB : Nat) (r : Run V) : Prop where
   inv : Inv KB r.st
   rest : DbOK KB r.rest
   cut : r.st.cutoff = r.rest.head?.map (·.sep)
+  basecut : ∀ b c, r.st.base = some b → r.st.cutoff = some c → b.sep < c
 
 /-- what every leaf handed to `handle_new_leaf` satisfies: non-empty, not over-full, at least half full unless it is
 handed the cutoff `None`, its separator at most its keys, its keys below the cutoff it is handed -/
@@ -79,7 +81,8 @@ theorem resetTo_spec (KB : Nat) (r : Run V) (key : Nat) (l0 : DbLeaf V) (rest0 :
       RS KB (resetTo key r) ∧ content (resetTo key r).st = den r.st.base r.st.ops ++ l.ents ∧
       den (resetTo key r).st.base (resetTo key r).st.ops = den r.st.base r.st.ops ∧
       (resetTo key r).st.base.map (·.sep) = some l.sep ∧
-      l.sep ≤ key ∧ (den r.st.base r.st.ops ≠ [] → skipped = []) ∧ (∀ e ∈ flat skipped, e.key < l.sep) := by
+      l.sep ≤ key ∧ (den r.st.base r.st.ops ≠ [] → skipped = []) ∧ (∀ e ∈ flat skipped, e.key < l.sep) ∧
+      (resetTo key r).st.sepOv = r.st.sepOv := by
   rw [hrest] at hdb
   obtain ⟨skipped, l, rest', e1, e2, e3, e4, e5, e6, e7⟩ := skipTo_spec key rest0 l0 hdb hl0
   have hdbl : DbOK KB (l :: rest') := by rw [e2] at hdb; exact hdb.append_right
@@ -105,8 +108,13 @@ theorem resetTo_spec (KB : Nat) (r : Run V) (key : Nat) (l0 : DbLeaf V) (rest0 :
       have := (hdb.1.2.2.2.2 n.sep rfl).1
       exact e6 n rfl (by omega)
   have hop_lt_l : ∀ e ∈ den r.st.base r.st.ops, e.key < l.sep := fun e he => by have := hbelow e he; omega
-  refine ⟨skipped, l, rest', by rw [hrest, e2], rfl, rfl, rfl, ?_, hcont, hden, rfl, e3, hskip, e5⟩
-  refine ⟨?_, hdbl.tail, rfl⟩
+  refine ⟨skipped, l, rest', by rw [hrest, e2], rfl, rfl, rfl, ?_, hcont, hden, rfl, e3, hskip, e5, rfl⟩
+  refine ⟨?_, hdbl.tail, rfl, ?_⟩
+  rotate_left
+  · intro b c hb hc
+    simp only [resetBase] at hb hc
+    cases hb
+    exact (hleaf.2.2.2.2 c hc).1
   refine ⟨wf_allIns hai _, ?_, ?_, ?_, ?_, ?_, ?_, ?_, ?_, fun _ => rfl⟩
   · show r.st.gauge = gaugeOf (den (some _) r.st.ops)
     rw [hden]; exact hinv.gauge
@@ -178,6 +186,7 @@ structure StepOut (KB : Nat) (r r2 : Run V) (c k : Nat) : Prop where
   out_below : ∀ e ∈ flatOut r2.out, e ∈ flatOut r.out ∨ e.key < k
   base_le : ∀ b, r2.st.base = some b → b.sep ≤ k
   news : ∀ l, OutLeaf.new l ∈ r2.out → OutLeaf.new l ∈ r.out ∨ NewGood l
+  chain : OutUpTo r.out (separator r.st) → OutUpTo r2.out (separator r2.st)
 
 theorem step_spec (sepf : Nat → Nat → Option Nat) (KB : Nat) (hsep : SepOK sepf KB) (r : Run V) (hrs : RS KB r)
     (c : Nat) (hc : r.st.cutoff = some c) (k : Nat) (hck : c ≤ k) :
@@ -211,12 +220,12 @@ theorem step_spec (sepf : Nat → Nat → Option Nat) (KB : Nat) (hsep : SepOK s
       refine ⟨by simp [keyOf]; omega, by simp [keyOf]; omega, ?_, h2⟩
       intro _; exact ⟨by simp [keyOf]; omega, by rw [h6]; rfl⟩
   obtain ⟨hk1, hk2, hk3, hk4⟩ := hkey
-  obtain ⟨skipped, l, rest', f1, f2, f3, f4, f5, f6, f7, f8, f9, f10, f11⟩ :=
+  obtain ⟨skipped, l, rest', f1, f2, f3, f4, f5, f6, f7, f8, f9, f10, f11, f12⟩ :=
     resetTo_spec KB ({ r with st := st', out := r.out ++ leaves.map .new } : Run V) (keyOf res k) l0 rest0 hrest
       (by exact hrs.rest) hk1 o.inv o.rest_nil hk4 (fun e he => by have := hlt e (hsub e he); omega) hk3
   generalize hr2 : resetTo (keyOf res k) ({ r with st := st', out := r.out ++ leaves.map .new } : Run V) = r2
-    at f2 f3 f4 f5 f6 f7 f8
-  simp only at f1 f3 f4
+    at f2 f3 f4 f5 f6 f7 f8 f12
+  simp only at f1 f3 f4 f12
   have hflat : flat r.rest = flat skipped ++ (l.ents ++ flat rest') := by rw [f1]; simp
   have hcase : den st'.base st'.ops = [] ∨ skipped = [] := by
     by_cases h : den st'.base st'.ops = []
@@ -225,7 +234,7 @@ theorem step_spec (sepf : Nat → Nat → Option Nat) (KB : Nat) (hsep : SepOK s
   have hout : flatOut r2.out = flatOut r.out ++ (leaves.flatMap (·.ents) ++ flat skipped) := by
     rw [f3]; simp [flatOut_new, flatOut_old]
   have hsk_lt : ∀ e ∈ flat skipped, e.key < k := fun e he => by have := f11 e he; omega
-  refine ⟨f5, by rw [f2, f1]; simp; omega, f4, ?_, ?_, ?_, ?_, ?_, ?_⟩
+  refine ⟨f5, by rw [f2, f1]; simp; omega, f4, ?_, ?_, ?_, ?_, ?_, ?_, ?_⟩
   · rw [hout, f6, f2, hflat, ← o.content_eq]
     rcases hcase with h | h
     · rw [h]; simp
@@ -262,5 +271,78 @@ theorem step_spec (sepf : Nat → Nat → Option Nat) (KB : Nat) (hsep : SepOK s
         exact digest_newGood hrs.inv o y hy
     · obtain ⟨y, _, hyx⟩ := List.mem_map.1 hx
       cases hyx
+
+  · -- the separators
+    intro hch
+    have hsep2 : ∀ (x : Option Nat), r2.st.sepOv = x → separator r2.st = x.getD l.sep := by
+      intro x hx
+      unfold separator
+      rw [hx]
+      cases x with
+      | some s => rfl
+      | none =>
+        cases hb2 : r2.st.base with
+        | none => rw [hb2] at f8; simp at f8
+        | some b2 => rw [hb2] at f8; simp at f8; simp [f8]
+    have hdbr : DbOK KB (skipped ++ l :: rest') := by rw [← f1]; exact hrs.rest
+    obtain ⟨oo1, oo2⟩ := outUpTo_olds skipped (l :: rest') l.sep hdbr (Or.inl rfl)
+    have hnext : nextSep (skipped.map .old) l.sep = c := by
+      cases hsk : skipped with
+      | nil =>
+        rw [hsk] at f1
+        simp at f1
+        rw [hrest] at f1
+        simp only [List.map_nil, nextSep]
+        have : l0 = l := (List.cons.inj f1).1
+        rw [← this, hl0]
+      | cons a sk' =>
+        have := oo2 a (by rw [hsk]; rfl)
+        rw [hsk] at this f1
+        rw [this]
+        rw [hrest] at f1
+        have : l0 = a := (List.cons.inj f1).1
+        rw [← this, hl0]
+    rw [f3]
+    cases res with
+    | finished =>
+      obtain ⟨_, _, hso, hce⟩ := o.fin rfl
+      have hs2 : separator r2.st = l.sep := by
+        have := hsep2 none (by rw [f12]; exact hso)
+        simpa using this
+      rw [hs2]
+      apply OutUpTo.append hnext oo1
+      by_cases hle : leaves = []
+      · subst hle
+        simp only [List.map_nil, List.append_nil]
+        -- nothing was produced: the bound moves from the old separator to the cutoff
+        refine OutUpTo.mono ?_ hch
+        cases hso' : r.st.sepOv with
+        | some s =>
+          have hne : den r.st.base r.st.ops ≠ [] := by
+            intro h; have := hrs.inv.sepnil h; rw [hso'] at this; cases this
+          obtain ⟨e, he⟩ := List.exists_mem_of_ne_nil _ hne
+          have h1 := hrs.inv.lo e (by simp [content, he])
+          have h2 := hlt e (by simp [content, he])
+          omega
+        | none =>
+          cases hb : r.st.base with
+          | none => simp [separator, hso', hb]
+          | some b =>
+            have := hrs.basecut b c hb hc
+            simp [separator, hso', hb]; omega
+      · rw [hc] at hce
+        obtain ⟨q1, q2⟩ := outUpTo_of_sepChainEnd (c := c) hce
+          (fun l' hl' e he => hlt e (hleafsub e (List.mem_flatMap.2 ⟨l', hl', he⟩))) hle
+        exact OutUpTo.append q2 q1 hch
+    | needsMerge c' =>
+      obtain ⟨_, _, hne, _, hchain, hso⟩ := o.merge c' rfl
+      have hskn : skipped = [] := f10 hne
+      have hs2 : separator r2.st = separator st' := by
+        have := hsep2 (some (separator st')) (by rw [f12]; exact hso)
+        simpa using this
+      rw [hs2, hskn]
+      simp only [List.map_nil, List.append_nil]
+      obtain ⟨q1, q2⟩ := outUpTo_of_sepChain hchain
+      exact OutUpTo.append q2 q1 hch
 
 end Nomt.LeafUpd
